@@ -263,6 +263,14 @@ func c03Kind(c *CaseC03) string {
 }
 
 func sweepC03(tier string, emit func(*CaseC03)) {
+	// nested voxels that are only refined, with 2^16 .. 2^18 results (a result that large with overlapping inputs)
+	for _, t := range [][2]int64{{15, 16}, {16, 16}} {
+		par := ref.Box{H: 10, X: 3, Y: 1020, V: 10, F: -2}
+		kid := ref.Box{H: 11, X: 7, Y: 2041, V: 11, F: -3}
+		emit(&CaseC03{Boxes: []ref.Box{par, kid}, H: t[0], V: t[1]})
+		emit(&CaseC03{Boxes: []ref.Box{kid, par, kid}, H: t[0], V: t[1]})
+	}
+	emit(&CaseC03{Boxes: []ref.Box{{H: 10, X: 0, Y: 0, V: 10, F: 0}, {H: 11, X: 0, Y: 0, V: 11, F: 0}}, H: 16, V: 16, Spatial: true})
 	// very long lists that only zoom out (tens of thousands of entries, negative unaligned vertical indices)
 	for _, n := range []int{32768, 40000, 65537} {
 		if tier == "quick" && n == 40000 {
